@@ -119,6 +119,11 @@ func (k *Keeper) EthereumTx(goCtx context.Context, msg *evmtypes.MsgEthereumTx) 
 	receipt.GasUsed = response.GasUsed
 	receipt.BlockNumber = big.NewInt(ctx.BlockHeight())
 	receipt.TransactionIndex = uint(txIndex)
+	// logs are numbered consecutively across the block
+	firstLogIndex := uint(k.GetCumulativeLogCountTransient(ctx, true))
+	for i, log := range receipt.Logs {
+		log.Index = firstLogIndex + uint(i)
+	}
 
 	receiptSdkEvent, err := evmtypes.GetSdkEventForReceipt(
 		receipt, // receipt
